@@ -265,6 +265,10 @@ func (c *Cond) Wait() {
 		c.realCond().Wait()
 		return
 	}
+	// a goroutine can be pre-empted between the test that made it decide to
+	// wait and its registration as a waiter: a wake-up sent without the
+	// condition's lock in that window is lost
+	s.Yield(simrt.YCondWait)
 	c.enter(s)
 	w := &condWaiter{t: s.Current()}
 	c.waiters = append(c.waiters, w)
